@@ -552,6 +552,18 @@ func runC14(tier string, seed uint64) {
 					}
 					continue
 				}
+				if _, held := u.etags[pn]; held && rng.Intn(3) == 0 {
+					// a re-upload of a part that the server refuses (the digest of other bytes; more bytes than
+					// declared): the part held before is still the one the listings show
+					body := c06Body(rng, j)
+					if rng.Bool() {
+						s.PartRaw(b, u.key, u.id, strconv.Itoa(pn), [][2]string{{"Content-Length", strconv.Itoa(len(body))}, {"Content-MD5", b64md5(append([]byte("other"), body...))}}, body, -1)
+					} else {
+						s.PartRaw(b, u.key, u.id, strconv.Itoa(pn), [][2]string{{"Content-Length", strconv.Itoa(len(body))}}, append(append([]byte{}, body...), []byte("tail")...), -1)
+					}
+					s.ListParts(b, u.key, u.id, -1, -1)
+					continue
+				}
 				if et := s.UploadPart(b, u.key, u.id, pn, c06Body(rng, j)); et != "" {
 					u.etags[pn] = et
 				}
